@@ -540,13 +540,41 @@ def rule_P6(repo: Repo) -> RuleResult:
             for gen in comp.generators:
                 srcs |= {x.id for x in ast.walk(gen.iter) if isinstance(x, ast.Name)}
         feeds = _feeding_calls(g, srcs)
-        if any(c.endswith("_apply_gb_func_across_chunked_group_keys") for c in feeds):
+        trimmed = _slot_trimmed_before(g, srcs, n)
+        if trimmed is not None:
+            res.bad(g, trimmed, f"{norm(trimmed)[:80]} before {norm(n)}",
+                    "the per-group arrays are cut to the number of labels before they are indexed by the row codes: the "
+                    "trailing null slot is gone, so code -1 selects the last real group for null-key rows")
+        elif any(c.endswith("_apply_gb_func_across_chunked_group_keys") for c in feeds):
             res.ok(g, n, construct, "indexed arrays come from the kernel path, allocated with the null slot")
         else:
             res.bad(g, n, construct,
                     f"the array indexed by the row codes ({sorted(srcs)}) is not produced by the kernel path that allocates a "
                     f"trailing null slot: code -1 selects the last group's value for null-key rows")
     return res
+
+
+def _slot_trimmed_before(f: Func, names: Set[str], site: ast.AST) -> Optional[ast.AST]:
+    """a definition (before the site) of one of the names, or of what feeds them, that slices with an upper bound"""
+    work = set(names)
+    seen: Set[str] = set()
+    while work:
+        nm = work.pop()
+        if nm in seen:
+            continue
+        seen.add(nm)
+        for n in walk_no_nested(f.node):
+            if isinstance(n, ast.Assign) and n.lineno < site.lineno:
+                tnames = {x.id for t in n.targets for x in ast.walk(t) if isinstance(x, ast.Name)}
+                if nm not in tnames:
+                    continue
+                for x in ast.walk(n.value):
+                    if isinstance(x, ast.Subscript) and isinstance(x.slice, ast.Slice) and x.slice.upper is not None \
+                            and x.slice.lower is None:
+                        return n
+                    if isinstance(x, ast.Name) and x.id not in seen and x.id not in ("self",):
+                        work.add(x.id)
+    return None
 
 
 def _feeding_calls(f: Func, names: Set[str]) -> Set[str]:
